@@ -273,6 +273,8 @@ def corpus_json(name):
         _n("doc", _n("horizontal_rule"), p(_t("a"))),
         _n("doc", _n("blockquote", _n("blockquote", p(_t("d")))), p()),
         _n("doc", p(_t("l", ["link", {"href": "foo"}]), _t("m", ["link", {"href": "foo"}], "em"))),
+        # the same mark value on two spans separated by unmarked content
+        _n("doc", p(_t("foo", ["link", {"href": "foo"}]), _t(" and "), _t("bar", ["link", {"href": "foo"}])), p(_t("t", "em"), _t("u"), _t("v", "em"))),
     ]
     if name in ("list", "iso", "table", "title"):
         li = lambda *c: _n("list_item", *c)  # noqa: E731
@@ -282,6 +284,7 @@ def corpus_json(name):
             _n("doc", _n("ordered_list", li(p(_t("a"))), a={"order": 3}), p(_t("z"))),
             _n("doc", _n("blockquote", _n("bullet_list", li(p(_t("a")), p(_t("b"))))), p(_t("c"))),
             _n("doc", p(_t("x")), _n("bullet_list", li(p(_t("a"))), li(p(_t("b"))), li(p(_t("c"))))),
+            _n("doc", _n("bullet_list", li(p(_t("x")), _n("bullet_list", li(p(_t("a"))), li(p(_t("b")))), p(_t("y"))))),
         ]
     if name == "iso":
         docs += [
